@@ -87,10 +87,15 @@ class BaseTcpTunnelHandler(BaseTcpServerHandler[TcpClientConnection]):
     ) -> bool:
         # Handle client events
         do_shutdown: bool = await super().handle_events(readables, writables)
-        if do_shutdown:
+        if do_shutdown and not (
+                self.upstream and not self.upstream.closed and
+                self.upstream.has_buffer()
+        ):
             return do_shutdown
-        # Handle server events
-        if self.upstream and not self.upstream.closed and \
+        # Handle server events.  A client that is done is still owed
+        # the delivery of what it sent, no more is read for it.
+        if not do_shutdown and \
+                self.upstream and not self.upstream.closed and \
                 self.upstream.connection.fileno() in readables:
             data = self.upstream.recv(self.flags.server_recvbuf_size)
             if data is None:
